@@ -270,7 +270,8 @@ class Distribution(NominalValueMixin):
         return p.add(other, dependency="f")
 
     def __radd__(self, other):
-        return self.add(other, dependency="f")
+        p = self.to_pbox()
+        return p.add(other, dependency="f")
 
     def __sub__(self, other):
         p = self.to_pbox()
@@ -285,7 +286,8 @@ class Distribution(NominalValueMixin):
         return p.mul(other, dependency="f")
 
     def __rmul__(self, other):
-        return self.mul(other, dependency="f")
+        p = self.to_pbox()
+        return p.mul(other, dependency="f")
 
     def __truediv__(self, other):
         p = self.to_pbox()
